@@ -120,6 +120,12 @@ def h1(
 
     array, array_mask = extract_1d_array(data, dropna=dropna)
 
+    if array_mask is None and hasattr(data, "shape") and hasattr(weights, "shape"):
+        # Without a mask (dropna=False), the shapes have to be compared here
+        if tuple(weights.shape) != tuple(data.shape):
+            raise ValueError(
+                f"Weights array shape ({tuple(weights.shape)}) != expected ({tuple(data.shape)})."
+            )
     weights = extract_weights(weights, array_mask=array_mask)
 
     binning = calculate_1d_bins(
